@@ -355,6 +355,8 @@ class Interp:
         if name in imp:
             return self.resolve_qual(imp[name])
         if mod + '.' + name in self.prog.classes:
+            if name in EXC_PARENTS:
+                return VClass(name)
             return VClass(mod + '.' + name)
         if mod + '.' + name in self.prog.funcs:
             return VFunc('function', fi=self.prog.funcs[mod + '.' + name])
@@ -394,6 +396,8 @@ class Interp:
         if q.startswith('pexpect.exceptions.'):
             return VClass(short)
         if q in self.prog.classes:
+            if short in EXC_PARENTS and q != 'pexpect.exceptions.' + short:
+                return VClass(short)
             return VClass(q)
         if q in self.prog.funcs:
             return VFunc('function', fi=self.prog.funcs[q])
@@ -475,6 +479,8 @@ class Interp:
                     if isinstance(ca, ast.Constant):
                         return self.const(ca.value)
                     raise Unsupported('class attribute %s.%s' % (cq, name))
+            if cq == 'iface:file':
+                return VFunc('builtin', name='print')
             if cq.startswith('iface:') or self.reg.has_iface_method(cq, name):
                 return VFunc('iface', cls=cq, name=name, self=base)
             if h.closed:
@@ -524,6 +530,8 @@ class Interp:
             return VStr('linux', 's')
         if mod == 'os' and name == 'linesep':
             return VStr('\n', 's')
+        if mod == 'string' and name == 'digits':
+            return VStr('0123456789', 's')
         if mod == 'os' and name in ('path', 'environ'):
             return VModule('os.' + name)
         if mod in self.prog.modules:
@@ -641,6 +649,8 @@ class Interp:
             return z3.Contains(container.t, item.t)
         if isinstance(container, VObj):
             h = self.ctx.heap[container.oid]
+            if h.kind == 'symdict':
+                return self.reg.heap_hook('symdict').contains(self, container, item)
             if h.kind == 'list':
                 parts = [S._b(self.veq(item, x)) for x in h.fields['items']]
                 return z3.Or(*parts) if parts else False
@@ -783,6 +793,9 @@ class Interp:
                 if z3.is_int_value(t):
                     k = t.as_long()
                     if -len(items) <= k < len(items):
+                        part = items[:k + 1] if k >= 0 else items[k:]
+                        if any(isinstance(x, VHidden) for x in part):
+                            raise Unsupported('index reaches the hidden part of the list')
                         return items[k]
                     self.ctx.oblige('safe.index-in-range', False, 'safe', 'line %s' % getattr(node, 'lineno', '?'))
                     self.raise_exc('IndexError')
